@@ -63,6 +63,21 @@ Print Assumptions guard_dominates_rewrite_trees.
 Theorem guard_dominates_apply_config : dominates (entry_facts EApplyConfig) = true.
 Proof. vm_compute; reflexivity. Qed.
 Print Assumptions guard_dominates_apply_config.
+(* strength of the guards as found in the source: forget / prune / repair index refuse
+   unconditionally under append-only, repair snapshots and rewrite iff their delete / forget option
+   is set, apply_config unless it switches append-only off (with refusal_iff_guard this fixes
+   exactly which calls are refused) *)
+Theorem guards_as_documented :
+  f_guard (entry_facts EForget) = Some [] /\
+  f_guard (entry_facts EPrune) = Some [] /\
+  f_guard (entry_facts ERepairIndex) = Some [] /\
+  (exists f, f_guard (entry_facts ERepairSnapshots) = Some [(f, true)]) /\
+  (exists f, f_guard (entry_facts ERewrite) = Some [(f, true)] /\
+             f_guard (entry_facts ERewriteTrees) = Some [(f, true)]) /\
+  f_guard (entry_facts EApplyConfig) = Some [(F_set_append_only_is_false, false)].
+Proof. exact guards_as_documented_lemma. Qed.
+Print Assumptions guards_as_documented.
+
 (* entries without a guard: no call site that can touch a protected file at all
    (delete_key removes a key file, which is outside the property's file classes) *)
 Theorem guard_dominates_unguarded_entries :
